@@ -37,6 +37,13 @@ def run(rep, tier):
     common.guarded(rep, "C15.2", c15.c15_2, rep, ix)       # a variable named like a parameter is still a variable
     common.guarded(rep, "C15.1", c15.c15_1, rep, ix, True)       # the p-type filter drops exactly p<digits> names from the reported parameters
     c05.aliasing_lint(rep, ix)
+    # a parameter inside an expression goes through the same operators as a number: the operator table of the evaluator holds for symbolic
+    # operands too (np.float_power, say, has no loop for SymPy objects)
+    from . import c03
+    from ..py.ctxtypes import ContextClasses
+    br_ = common.guarded(rep, "C03.2", c03.c03_2, rep, ix, M)
+    if br_:
+        common.guarded(rep, "C03.3", c03.c03_3, rep, ix, M, ContextClasses(M.src["py_parser"]), br_)
     # the parameters a template reports are those of its own script: the module tables hold nothing of an earlier load (shared with C12)
     c05.shared_tables(rep, ix, M.G)
     # the instantiated program is a deep copy (shared with C13)
@@ -111,6 +118,14 @@ def value_mapping(fn):
     for n in ast.walk(fn):
         if isinstance(n, ast.Subscript) and isinstance(n.ctx, ast.Load) and isinstance(n.value, ast.Name) and "str(" in u(n.slice):
             names[n.value.id] = names.get(n.value.id, 0) + 1
+    if not names:
+        # the look-ups that a KeyError -> ValueError translation encloses
+        for t in ast.walk(fn):
+            if isinstance(t, ast.Try) and any(h.type is not None and "KeyError" in u(h.type) for h in t.handlers):
+                for b_ in t.body:
+                    for n in ast.walk(b_):
+                        if isinstance(n, ast.Subscript) and isinstance(n.ctx, ast.Load) and isinstance(n.value, ast.Name) and not isinstance(n.slice, ast.Constant):
+                            names[n.value.id] = names.get(n.value.id, 0) + 1
     if "kwargs" in names or not names:
         return "kwargs"
     return max(names, key=names.get)
